@@ -14,6 +14,16 @@ import numpy as np
 from . import common
 from .common import Driver, fields
 
+CLAIM = dict(
+    text="Lean 4 theorems over the sequential FileCache machine: accounting invariant for every reachable state "
+         "and every legal eviction choice, refinement of every operation sequence to a finite map, table merge = "
+         "documented merge; model tied to klongpy.db by per-step correspondence (outputs + state digest + directory "
+         "contents) with the real run's eviction choice replayed and checked for legality.",
+    note="trusted: Lean kernel (axioms propext/Classical.choice/Quot.sound), correspondence harness, CPython, pickle, "
+         "pandas sort/duplicated, the file system; one client at a time (concurrency is C18); keys not path prefixes of each other",
+    technique="Lean 4 invariant + refinement proof, hand-written model, differential correspondence with replayed eviction choice",
+    design="7/C16")
+
 MODULES = ["Klong.Props.C16"]
 THEOREMS = [
     "Klong.C16.accounting_inv",
